@@ -9,14 +9,23 @@
   OBLIGATION c17_description_style
   OBLIGATION c17_strings_block
   OBLIGATION c17_tokens_partial
+  OBLIGATION c17_tokens_false
+  OBLIGATION c17_tokens_deprecation
+  OBLIGATION c17_tokens_directives
+  OBLIGATION c17_tokens_default_value
+  OBLIGATION c17_tokens_directive_definition
+  OBLIGATION c17_tokens_plain
+  OBLIGATION c17_tokens_plain_doc
   OBLIGATION c17_witness_reason_quote
   OBLIGATION c17_witness_single_line_backslash
   OBLIGATION c17_witness_tag_backslash
   OBLIGATION c17_witness_block_triple_quote
   OBLIGATION c17_witness_interface_order
   OBLIGATION c17_witness_dynamic_registration
-  OPEN c17_tokens
+  OPEN c17_tokens_wf
   OPEN c17_chars
+
+  `c17_tokens` as first stated (no well-formedness hypothesis) is refuted: `c17_tokens_false`.
 
   All theorems are about the model with no defect toggle (`Defects.none` = the tree with the fix
   diffs applied); each toggle has a witness showing the statement fails with it.
@@ -24,7 +33,7 @@
 import AGV.Model.Sdl
 import AGV.Spec.SdlParse
 import AGV.Lemmas.SdlBlock
-import AGV.Lemmas.SdlSkeletonDoc
+import AGV.Lemmas.SdlDocument
 
 namespace AGV.Props.C17
 open AGV.Core.Sdl AGV.Model.Sdl AGV.Spec.Literal AGV.Spec.Lex AGV.Lemmas.SdlBlock
@@ -178,14 +187,16 @@ theorem startsDunder_eq (n : Text) : startsDunder n = startsWith2Underscores n :
   unfold startsDunder startsWith2Underscores
   split <;> simp_all
 
-/-- PARTIAL `c17_tokens`: for a plain (non-federation) export of a schema whose types are skeletons
-    (`SkelType`: names are Names; kinds, DESCRIPTIONS of types / fields / arguments / enum values /
-    input fields in either style, fields, argument lists in both layouts, type references of any
-    nesting, implements lists, union members, enum values, input fields — but no directive
-    applications, deprecations, default values, specifiedBy URLs or @oneOf), under every sorting /
-    indentation / description-style option: the type-definition part of the exported text — lexed by the
-    specification's lexer, parsed by the reference parser — is exactly the type-definition part of
-    the required document. -/
+/-- PARTIAL `c17_tokens_wf`: for a plain (non-federation) export of a schema whose types are
+    well-formed (`SkelType`: names are Names; kinds, DESCRIPTIONS of types / fields / arguments /
+    enum values / input fields in either style, fields, argument lists in both layouts, type
+    references of any nesting, implements lists, union members, enum values, input fields,
+    DEPRECATIONS with or without reason on fields / arguments / enum values / input fields,
+    DIRECTIVE APPLICATIONS with arguments on every item, DEFAULT VALUES (C15's printer: integers,
+    strings, booleans, null, enum values, lists, objects, any nesting), specifiedBy URLs and
+    @oneOf), under every sorting / indentation / description-style / specifiedBy option: the
+    type-definition part of the exported text — lexed by the specification's lexer, parsed by the
+    reference parser — is exactly the type-definition part of the required document. -/
 theorem c17_tokens_partial (k : Kind) (S : Schema) (o : Opts) (ho : o.federation = false)
     (hS : ∀ t ∈ S.types, SkelType t) (hne : typeDefsDoc o S ≠ []) :
     (∃ tail, run Defects.none k S o = typeDefsText S o ++ tail) ∧
@@ -205,72 +216,59 @@ theorem c17_tokens_partial (k : Kind) (S : Schema) (o : Opts) (ho : o.federation
   exact parse_typeDefs o ho _ (fun t ht => hS t ((List.mem_mergeSort.mp (List.mem_filter.mp ht).1))) hne
 
 
-/-- a schema with an object (field with arguments, list / non-null wrappers, implements), an
-    interface, a union, an enum, an input object and a custom scalar -/
-def skeletonWitness : Schema :=
-  { query := "Q".toList, mutation := none, ddefs := [],
+/-- a schema with an object (fields with arguments, list / non-null wrappers, implements, a
+    deprecated field with a reason full of escapes, a deprecated argument, default values of
+    every kind, directive applications with nested arguments), an interface, a union, an enum
+    (deprecated value), a oneOf input object (deprecated field, default object), custom scalars
+    (specifiedBy URL, directive application), a mutation root and a custom repeatable directive
+    definition with a default value -/
+def fullWitness : Schema :=
+  { query := "Q".toList, mutation := some "M".toList,
+    ddefs := [DirDef.mk "auth".toList (some "access control".toList)
+      [⟨"roles".toList, {}, .listOf (.named "String".toList false) true, some (.list [.str "admin \"root\"".toList])⟩,
+       ⟨"level".toList, {}, .named "Int".toList true, some (.int (-3))⟩] true
+      ["OBJECT".toList, "FIELD_DEFINITION".toList] none],
     types :=
-      [ .object "Q".toList { desc := some "the root\n  of all \"queries\"".toList } false ["Node".toList]
-          [⟨"id".toList, {}, .named "ID".toList false, []⟩,
-           ⟨"find".toList, { desc := some "search".toList }, .listOf (.named "Hit".toList false) true,
-             [⟨"q".toList, { desc := some "what to look for".toList }, .named "Filter".toList false, none⟩,
-              ⟨"n".toList, {}, .named "Int".toList true, none⟩]⟩],
+      [ .object "Q".toList { desc := some "the root\n  of all \"queries\"".toList,
+                             dirs := [⟨"auth".toList, [("roles".toList, .list [.str "a".toList, .str "b\\c".toList]), ("level".toList, .int 0)]⟩] }
+          false ["Node".toList]
+          [⟨"id".toList, { dep := .yes (some "use \"uid\"\n\\ instead".toList) }, .named "ID".toList false, []⟩,
+           ⟨"find".toList, { desc := some "search".toList, dep := .yes none, dirs := [⟨"auth".toList, []⟩, ⟨"auth".toList, [("level".toList, .int 7)]⟩] },
+             .listOf (.named "Hit".toList false) true,
+             [⟨"q".toList, { desc := some "what to look for".toList, dep := .yes (some "gone".toList) }, .named "Filter".toList false,
+                some (.obj [("mode".toList, .enum "FAST".toList), ("tags".toList, .list []), ("deep".toList, .obj [("x".toList, .null)])])⟩,
+              ⟨"n".toList, { dirs := [⟨"auth".toList, []⟩] }, .named "Int".toList true, some (.int (-12))⟩,
+              ⟨"exact".toList, {}, .named "Boolean".toList true, some (.bool true)⟩]⟩],
         .interface "Node".toList {} false [] [⟨"id".toList, {}, .named "ID".toList false, []⟩],
-        .union "Hit".toList {} ["Q".toList, "Other".toList],
-        .object "Other".toList {} false [] [⟨"when".toList, {}, .named "Date".toList true, []⟩],
-        .enum "Mode".toList {} [("FAST".toList, { desc := some " leading blank: quoted style".toList }), ("EXACT".toList, {})],
-        .input "Filter".toList {} false [⟨"mode".toList, {}, .named "Mode".toList true, none⟩],
-        .scalar "Date".toList {} none,
+        .union "Hit".toList { dirs := [⟨"auth".toList, []⟩] } ["Q".toList, "M".toList],
+        .object "M".toList {} false [] [⟨"when".toList, {}, .named "Date".toList true, []⟩],
+        .enum "Mode".toList {} [("FAST".toList, { desc := some " leading blank: quoted style".toList, dep := .yes (some "slow".toList) }),
+                                ("EXACT".toList, { dirs := [⟨"auth".toList, [("level".toList, .int 1)]⟩] })],
+        .input "Filter".toList {} true
+          [⟨"mode".toList, { dep := .yes none }, .named "Mode".toList true, some (.enum "EXACT".toList)⟩,
+           ⟨"text".toList, {}, .named "String".toList true, some (.str "tab\there".toList)⟩],
+        .scalar "Date".toList { dirs := [⟨"auth".toList, []⟩] } (some "https://example.org/\"date\"".toList),
         .scalar "Int".toList {} none ] }
 
-example : (∀ t ∈ skeletonWitness.types, SkelType t) ∧ typeDefsDoc {} skeletonWitness ≠ [] := by
-  have pa : ∀ d : Option Text, PlainAttrs { desc := d } := fun _ => ⟨rfl, rfl⟩
+example : schemaOk fullWitness = true := by decide
+
+example : (∀ t ∈ fullWitness.types, SkelType t) ∧ typeDefsDoc {} fullWitness ≠ [] := by
   constructor
   · intro t ht
-    simp only [skeletonWitness, List.mem_cons, List.mem_nil_iff, or_false] at ht
-    rcases ht with rfl | rfl | rfl | rfl | rfl | rfl | rfl | rfl
-    · refine ⟨by decide, pa _, by decide, by simp, ?_⟩
-      intro f hf
-      simp only [List.mem_cons, List.mem_nil_iff, or_false] at hf
-      rcases hf with rfl | rfl
-      · exact ⟨⟨by decide, by (simp only [WfType]; decide), pa _, by simp⟩, by decide⟩
-      · refine ⟨⟨by decide, by (simp only [WfType]; decide), pa _, ?_⟩, by decide⟩
-        intro a ha
-        simp only [List.mem_cons, List.mem_nil_iff, or_false] at ha
-        rcases ha with rfl | rfl <;> exact ⟨by decide, by (simp only [WfType]; decide), rfl, pa _⟩
-    · refine ⟨by decide, pa _, by simp, by simp, ?_⟩
-      intro f hf
-      simp only [List.mem_cons, List.mem_nil_iff, or_false] at hf
-      subst hf
-      exact ⟨⟨by decide, by (simp only [WfType]; decide), pa _, by simp⟩, by decide⟩
-    · exact ⟨by decide, pa _, by simp, by decide⟩
-    · refine ⟨by decide, pa _, by simp, by simp, ?_⟩
-      intro f hf
-      simp only [List.mem_cons, List.mem_nil_iff, or_false] at hf
-      subst hf
-      exact ⟨⟨by decide, by (simp only [WfType]; decide), pa _, by simp⟩, by decide⟩
-    · refine ⟨by decide, pa _, by simp, ?_⟩
-      intro v hv
-      simp only [List.mem_cons, List.mem_nil_iff, or_false] at hv
-      rcases hv with rfl | rfl <;> exact ⟨by decide, by decide, pa _⟩
-    · refine ⟨by decide, pa _, rfl, by simp, ?_⟩
-      intro f hf
-      simp only [List.mem_cons, List.mem_nil_iff, or_false] at hf
-      subst hf
-      exact ⟨by decide, by (simp only [WfType]; decide), rfl, pa _⟩
-    · exact ⟨by decide, pa _, rfl⟩
-    · exact ⟨by decide, pa _, rfl⟩
+    have h : fullWitness.types.all typeOk = true := by decide
+    exact typeOk_sound (List.all_eq_true.mp h t ht)
   · intro h
-    have hm : TypeDef.union "Hit".toList {} ["Q".toList, "Other".toList] ∈
-        (sorted true TypeDef.name skeletonWitness.types).filter
+    have hm : TypeDef.interface "Node".toList {} false [] [⟨"id".toList, {}, .named "ID".toList false, []⟩] ∈
+        (sorted true TypeDef.name fullWitness.types).filter
           (fun t => !startsDunder t.name && !(({} : Opts).federation && (federationTypeNames.contains t.name || t.name = kwT "Any"))) := by
       rw [List.mem_filter]
       refine ⟨?_, by decide⟩
       unfold sorted
       rw [if_pos rfl, List.mem_mergeSort]
-      simp [skeletonWitness]
-    have : SDef.type false "Hit".toList none (dDirs {} {}) (.union ["Q".toList, "Other".toList]) ∈
-        typeDefsDoc {} skeletonWitness := List.mem_filterMap.mpr ⟨_, hm, rfl⟩
+      simp [fullWitness]
+    have hmem : ∀ d, dType {} (TypeDef.interface "Node".toList {} false [] [⟨"id".toList, {}, .named "ID".toList false, []⟩]) = some d →
+        d ∈ typeDefsDoc {} fullWitness := fun d hd => List.mem_filterMap.mpr ⟨_, hm, hd⟩
+    have := hmem _ rfl
     rw [h] at this
     cases this
 
